@@ -17,7 +17,7 @@ LEVEL = "exploration"
 
 
 def int_configs(tier):
-    widths = list(range(1, 73)) + [128]
+    widths = list(range(1, 73)) + [80, 96, 100, 127, 128, 129, 200, 256]
     out = []
     for w in widths:
         for enc in ("unsigned", "signed", "twosComplement"):
@@ -168,7 +168,7 @@ def run(ctx):
     coverage = {
         "programs": tally.programs,
         "exhaustive": True,
-        "bound": ("integers: widths 1..72 and 128 x {unsigned, signed, twosComplement} x {MSB first, LSB first for whole-byte widths} x "
+        "bound": ("integers: widths 1..72, 80, 96, 100, 127, 128, 129, 200, 256 x {unsigned, signed, twosComplement} x {MSB first, LSB first for whole-byte widths} x "
                   f"bit offsets 0..7 x (ALL 2^w patterns for w <= {12 if ctx.quick else 16}, else boundary/walking/alternating/index family) x "
                   "neighbour fill {0,1}; floats: binary16 ALL 65536 patterns, binary32/64 every exponent x mantissa family + walking bits + "
                   "specials, MIL-STD-1750A all 256 exponents x ~60 mantissas, both byte orders, "
